@@ -3,7 +3,6 @@ from .. import backtest
 from ..oracles.ledger import LedgerMonitor
 from ..oracles.transactions import TransactionMonitor
 from . import common
-from .common import sample_view, shrink  # noqa
 
 ID = "C18"
 LEVEL = "exploration"
@@ -11,19 +10,23 @@ TECHNIQUE = "deterministic simulation; a shadow transaction counter fed from the
 BUDGET = {"quick": {"runs": 10000, "wall": 45}, "thorough": {"runs": 500000, "wall": 900}}
 RULE = (
     "one evaluation = one seeded backtest over 1-3 sequential markets whose publish times cross hour and day boundaries (and jump backwards between markets), "
-    "1-2 clients with transaction limits None/0/1/3/20, packages of all kinds with failing cancels/updates/replaces, forced and non-forced requests; non-trivial = the "
-    "hourly figure exceeded a limit or the hourly counters were restarted by a request in a new clock hour; distinct = distinct scenario digests"
+    "1-2 clients with transaction limits None/0/1/3/20, packages of all kinds with failing cancels/updates/replaces, forced and non-forced requests (85%); or 2-3 concurrent "
+    "add_transaction calls under opcode-level pre-emption with a seeded switch tape (15%); non-trivial = the hourly figure exceeded a limit, the hourly counters were "
+    "restarted by a request in a new clock hour, or an opcode schedule switched threads at least twice; distinct = distinct scenario digests"
 )
 ASSUMPTIONS = [
     "counting convention as stated by the property: placement and replacement instructions of executed packages plus failed cancel/update reports and failed cancel parts of replaces",
     "the hourly counters restart at the first non-forced request that reaches the client control in a new clock hour (a request refused earlier by a trading control does not reach it)",
 ]
-COMPONENTS = common.COMPONENTS_A
+COMPONENTS = dict(common.COMPONENTS_A, world_C=["real: MaxTransactionCount.add_transaction executed by 2-3 real threads pre-empted after every bytecode instruction (sys.settrace opcode events), switch order from the seeded tape", "stub: the control's threading.Lock -> cooperative lock owned by the scheduler"])
 MONITORS = [LedgerMonitor, TransactionMonitor]
 HOUR = 3600_000
 
 
 def generate(rng, i, tier):
+    if rng.random() < 0.15:
+        # World C: opcode-level pre-emption of concurrent add_transaction calls
+        return {"world": "C", "calls": [[rng.randint(1, 5), rng.random() < 0.35] for _ in range(rng.choice([2, 2, 3]))], "tape": [rng.randrange(1000) for _ in range(300)]}
     n_markets = rng.choice([1, 2, 3])
     knobs = {"p_removal": 0.1, "p_suspend": rng.choice([0.1, 0.4]), "p_inplay": 0.3, "n_updates": (6, rng.choice([12, 25])), "spacing": rng.choice(["slow", "slow", "mixed", "normal"]), "p_trade": 0.5}
     mix = {"p_act": rng.choice([0.5, 0.8]), "p_fok": 0.05, "p_sp": 0.05, "w_cancel": 3, "w_update": 2, "w_replace": 3, "w_txn": 1, "p_force": rng.choice([0.0, 0.2]), "max_size": 5.0, "where": ("through", "at", "behind", "behind")}
@@ -45,4 +48,23 @@ def generate(rng, i, tier):
 
 
 def execute(scenario):
+    if scenario.get("world") == "C":
+        from .. import opcode
+
+        return opcode.run_scenario(scenario)
     return backtest.run_scenario(scenario, MONITORS, owner=ID)
+
+
+def sample_view(scenario):  # noqa: F811
+    if scenario.get("world") == "C":
+        return scenario
+    return common.sample_view(scenario)
+
+
+def shrink(scenario, test, deadline):  # noqa: F811
+    if scenario.get("world") == "C":
+        tape = list(scenario["tape"])
+        while len(tape) > 2 and test(dict(scenario, tape=tape[: len(tape) // 2])):
+            tape = tape[: len(tape) // 2]
+        return dict(scenario, tape=tape)
+    return common.shrink(scenario, test, deadline)
